@@ -69,8 +69,13 @@ def _recording_designer(log):
                         'active': [[t.id, round(t.parameters['x'].value, 6)] for t in all_active.trials]})
             self.seen += len(completed.trials)
 
+        zero = [0]          # number of coming suggest() calls that propose nothing (exhausted search space)
+
         def suggest(self, count=None):
             outl = []
+            if Rec.zero[0] > 0:
+                Rec.zero[0] -= 1
+                return outl
             for _ in range(count or 1):
                 Rec.counter[0] += 1
                 outl.append(vz.TrialSuggestion({'x': Rec.counter[0] / 1000.0}))
@@ -329,6 +334,8 @@ def cmd_policy(p):
     desc = sup.study_descriptor()
     import attr
     desc = attr.evolve(desc, max_trial_id=m)
+    if p.get('zero_suggestions'):
+        Rec.zero[0] = 1
     dec = pol.suggest(pythia.SuggestRequest(study_descriptor=desc, count=1))
     want = _spec_new(trials, inc, m)
     want_active = sorted(tid for tid, st in trials if st == 'ACTIVE')
